@@ -4,17 +4,18 @@ import Mathlib.Data.Rat.Floor
 
 Property theorems only (helper lemmas: `Lemmas/Grid.lean` (ordered-field geometry), `Lemmas/GridCells.lean`,
 `GridIndex.lean`, `GridBuild.lean`, `GridQuery.lean`, `GridMain.lean`). The model is `Model/Grid.lean`
-(`core/spatial_index.py` after ad7c5ee and 9a44198, `cartesienne`/`isSegmentIntersects` of `util/geometry.py`).
+(`core/spatial_index.py` after ad7c5ee, 9a44198 and the degenerate-extent repair, `cartesienne`/`isSegmentIntersects`
+of `util/geometry.py`).
 
 All statements are over an arbitrary linearly ordered field `α` (ℚ, ℝ) with `fl : α → ℤ` any function satisfying
 the contract of `math.floor` (`IsFloor`); they are about the exact values, not about IEEE rounding.
 `lerp A B s` is the point `A + s (B − A)` of the segment `[A, B]`; `Consec t` are the consecutive vertex pairs of
 the track `t`; `Holds g i j k` says `k ∈ grid[i][j]`. `getCell ix p = some c` says that `p` is inside the closed
 extent and `c` are its fractional cell indices (what `__getCell` returns when it returns; `getCellR` is `__getCell`
-with its ZeroDivisionError on a zero cell side). A theorem about `build … = .ok ix` speaks about constructor calls
-that return: since 9a44198 that includes the thin extents with the default resolution (`default_resolution_builds`);
-for `margin = 0` none returns (finding `vertex-on-upper-border`), nor for a collection with a segment and a flat
-extent (`flat_extent_raises`). -/
+with its ZeroDivisionError on a zero cell side, which no built index has: `grid_always_builds`). A theorem about
+`build … = .ok ix` speaks about constructor calls that return: that includes thin, flat and single-point extents and
+extents shorter than the cell size (`grid_always_builds`, `flat_axis_single_column`); for `margin = 0` a vertex on the
+upper border of a non-flat axis makes the registration loop raise (finding `vertex-on-upper-border`). -/
 namespace TV.C08
 open TV.Grid
 variable {α : Type} [Field α] [LinearOrder α] [IsStrictOrderedRing α]
@@ -61,8 +62,8 @@ theorem point_query_complete {fl : α → Int} (hf : IsFloor fl) (feats : List (
     ∃ l, requestPoint fl ix q = .ok l ∧ k ∈ l := by
   obtain ⟨c, hc, l, hl, hkl⟩ := build_registers hf feats res margin ix hm hb k t hk A B hAB s hs0 hs1
   rw [hP] at hc; cases hc
-  obtain ⟨hnz, _, _⟩ := build_nonflat feats res margin ix hm hb t (List.mem_of_getElem? hk)
-    (List.ne_nil_of_mem hAB)
+  obtain ⟨_, _, _, hz⟩ := build_spec feats res margin ix hm hb
+  have hnz := hz t (List.mem_of_getElem? hk) (List.ne_nil_of_mem hAB)
   refine ⟨l, ?_, hkl⟩
   unfold requestPoint requestCell
   simp only [getCellR_of_nz ix hnz q, hq, hcell.1, hcell.2]
@@ -88,12 +89,11 @@ theorem segment_query_returns {fl : α → Int} (hf : IsFloor fl) (feats : List 
     (h1 : (ix.xmin ≤ Q1.1 ∧ Q1.1 < ix.xmax) ∧ (ix.ymin ≤ Q1.2 ∧ Q1.2 < ix.ymax))
     (h2 : (ix.xmin ≤ Q2.1 ∧ Q2.1 < ix.xmax) ∧ (ix.ymin ≤ Q2.2 ∧ Q2.2 < ix.ymax)) :
     ∃ l, requestSeg fl ix Q1 Q2 = .ok l := by
-  obtain ⟨hw, _, _, _, _⟩ := build_spec feats res margin ix hm hb
-  obtain ⟨_, _, pX, pY, _, _⟩ := build_pos hf feats res margin ix hm hres hb
-  have hdX := pX (lt_of_le_of_lt h1.1.1 h1.1.2)
-  have hdY := pY (lt_of_le_of_lt h1.2.1 h1.2.2)
+  obtain ⟨hw, _, _, _⟩ := build_spec feats res margin ix hm hb
+  obtain ⟨_, _, hdX, hdY, tX, tY, _, _⟩ := build_grid hf feats res margin ix hm hres hb
   have hnz : NZ ix := (NZ_iff ix).mpr ⟨ne_of_gt hdX, ne_of_gt hdY⟩
-  obtain ⟨ex, ey, _, _⟩ := build_extent feats res margin ix hm hb
+  have ex := tX (lt_of_le_of_lt h1.1.1 h1.1.2)
+  have ey := tY (lt_of_le_of_lt h1.2.1 h1.2.2)
   have g1 : getCell ix Q1 = some ((Q1.1 - ix.xmin) / ix.dX, (Q1.2 - ix.ymin) / ix.dY) :=
     (getCell_some_iff ix Q1 _).mpr ⟨⟨h1.1.1, le_of_lt h1.1.2⟩, ⟨h1.2.1, le_of_lt h1.2.2⟩, rfl⟩
   have g2 : getCell ix Q2 = some ((Q2.1 - ix.xmin) / ix.dX, (Q2.2 - ix.ymin) / ix.dY) :=
@@ -165,12 +165,9 @@ theorem neighborhood_complete {fl : α → Int} (hf : IsFloor fl) (feats : List 
     (s : α) (hs0 : 0 ≤ s) (hs1 : s ≤ 1) (q : α × α) (hq : getCell ix q ≠ none) (d : α) (hd : 0 ≤ d)
     (hdist : (q.1 - (lerp A B s).1) ^ 2 + (q.2 - (lerp A B s).2) ^ 2 ≤ d ^ 2) :
     ∃ u l, groundDistanceToUnits fl ix d = .ok u ∧ neighborhoodPoint fl ix q u = .ok (some l) ∧ k ∈ l := by
-  obtain ⟨hw, _, _, _, _⟩ := build_spec feats res margin ix hm hb
-  obtain ⟨hnz, nfx, nfy⟩ := build_nonflat feats res margin ix hm hb t (List.mem_of_getElem? hk)
-    (List.ne_nil_of_mem hAB)
-  obtain ⟨hcs, hls, pX, pY, _, _⟩ := build_pos hf feats res margin ix hm hres hb
-  have hdX := pX nfx
-  have hdY := pY nfy
+  obtain ⟨hw, _, _, _⟩ := build_spec feats res margin ix hm hb
+  obtain ⟨hcs, hls, hdX, hdY, _⟩ := build_grid hf feats res margin ix hm hres hb
+  have hnz := build_nz hf feats res margin ix hm hres hb
   obtain ⟨cP, hP, hHolds⟩ := build_registers hf feats res margin ix hm hb k t hk A B hAB s hs0 hs1
   obtain ⟨cq, hcq⟩ := Option.ne_none_iff_exists'.mp hq
   -- coordinate differences are bounded by the Euclidean distance
@@ -219,22 +216,18 @@ theorem neighborhood_complete {fl : α → Int} (hf : IsFloor fl) (feats : List 
   · exact ⟨cl, hcl, hkcl⟩
 
 /-- Formal side of finding `vertex-on-upper-border` (D10): if the constructor returns (margin ≥ 0, positive or
-default cell size) then no point of any feature segment lies on the upper border `x = xmax` or `y = ymax` of the
-extent. With `margin = 0` the extent is the bounding box, so a right-most or top-most vertex that belongs to a
-track of at least two points makes the constructor raise (the model's `grid[csize]` IndexError). -/
+default cell size) then no point of any feature segment lies on the upper border `x = xmax` of an axis of positive
+length (`y = ymax` likewise). With `margin = 0` the extent is the bounding box, so a right-most or top-most vertex
+that belongs to a track of at least two points makes the constructor raise (the model's `grid[csize]` IndexError) —
+unless all vertices share that abscissa (ordinate): the single column (row) of a zero-length axis holds them. -/
 theorem vertex_on_upper_border_raises {fl : α → Int} (hf : IsFloor fl) (feats : List (List (α × α))) (res : Option (α × α))
     (margin : α) (ix : Index α) (hm : 0 ≤ margin) (hres : ∀ r, res = some r → 0 < r.1 ∧ 0 < r.2)
     (hb : build fl feats res margin = .ok ix)
     (k : Nat) (t : List (α × α)) (hk : feats[k]? = some t) (A B : α × α) (hAB : (A, B) ∈ Consec t)
     (s : α) (hs0 : 0 ≤ s) (hs1 : s ≤ 1) :
-    (lerp A B s).1 < ix.xmax ∧ (lerp A B s).2 < ix.ymax := by
-  obtain ⟨hw, _, _, _, _⟩ := build_spec feats res margin ix hm hb
-  obtain ⟨_, nfx, nfy⟩ := build_nonflat feats res margin ix hm hb t (List.mem_of_getElem? hk)
-    (List.ne_nil_of_mem hAB)
-  obtain ⟨_, _, pX, pY, _, _⟩ := build_pos hf feats res margin ix hm hres hb
-  have hdX := pX nfx
-  have hdY := pY nfy
-  obtain ⟨ex, ey, _, _⟩ := build_extent feats res margin ix hm hb
+    (ix.xmin < ix.xmax → (lerp A B s).1 < ix.xmax) ∧ (ix.ymin < ix.ymax → (lerp A B s).2 < ix.ymax) := by
+  obtain ⟨hw, _, _, _⟩ := build_spec feats res margin ix hm hb
+  obtain ⟨_, _, hdX, hdY, tX, tY, _, _⟩ := build_grid hf feats res margin ix hm hres hb
   obtain ⟨cP, hP, cl, hcl, _⟩ := build_registers hf feats res margin ix hm hb k t hk A B hAB s hs0 hs1
   obtain ⟨a1, a2, rfl⟩ := (getCell_some_iff ix _ cP).mp hP
   dsimp only at hcl
@@ -246,13 +239,17 @@ theorem vertex_on_upper_border_raises {fl : α → Int} (hf : IsFloor fl) (feats
     rwa [hf.zero] at this
   obtain ⟨hi1, hj1⟩ := lt_of_cellGet_ok ix.grid _ _ hw.2 _ _ cl hcl hi0 hj0
   constructor
-  · by_contra hc
+  · intro hlt
+    have ex := tX hlt
+    by_contra hc
     have he : (lerp A B s).1 = ix.xmax := le_antisymm a1.2 (not_lt.mp hc)
     have : ((lerp A B s).1 - ix.xmin) / ix.dX = ((ix.csize : Int) : α) := by
       rw [he, ← ex, mul_comm, mul_div_assoc, div_self (ne_of_gt hdX), mul_one]
     rw [this, hf.eq_of (le_refl _) (by linarith)] at hi1
     omega
-  · by_contra hc
+  · intro hlt
+    have ey := tY hlt
+    by_contra hc
     have he : (lerp A B s).2 = ix.ymax := le_antisymm a2.2 (not_lt.mp hc)
     have : ((lerp A B s).2 - ix.ymin) / ix.dY = ((ix.lsize : Int) : α) := by
       rw [he, ← ey, mul_comm, mul_div_assoc, div_self (ne_of_gt hdY), mul_one]
@@ -260,69 +257,74 @@ theorem vertex_on_upper_border_raises {fl : α → Int} (hf : IsFloor fl) (feats
     omega
 
 /-- Formal side of finding `query-on-upper-border`: on a built index, `request(q)` for a point `q` of the extent
-with `x = xmax` or `y = ymax` raises: IndexError when the extent is not flat (`__getCell` accepts the point and
-returns index `csize` / `lsize`), and ZeroDivisionError (in `__getCell`) when it is flat. -/
+on the upper border of an axis of positive length (`q.x = xmax > xmin` or `q.y = ymax > ymin`) raises IndexError:
+`__getCell` accepts the point and returns index `csize` / `lsize`. -/
 theorem point_query_on_upper_border_raises {fl : α → Int} (hf : IsFloor fl) (feats : List (List (α × α)))
     (res : Option (α × α)) (margin : α) (ix : Index α) (hm : 0 ≤ margin) (hres : ∀ r, res = some r → 0 < r.1 ∧ 0 < r.2)
     (hb : build fl feats res margin = .ok ix) (q : α × α) (hq : getCell ix q ≠ none)
-    (hborder : q.1 = ix.xmax ∨ q.2 = ix.ymax) :
-    requestPoint fl ix q = .error (if ix.xmin < ix.xmax ∧ ix.ymin < ix.ymax then .index else .zerodiv) := by
-  obtain ⟨hw, _, _, _, _⟩ := build_spec feats res margin ix hm hb
-  obtain ⟨hcs, hls, pX, pY, zX, zY⟩ := build_pos hf feats res margin ix hm hres hb
-  obtain ⟨ex, ey, _, _⟩ := build_extent feats res margin ix hm hb
+    (hborder : (ix.xmin < ix.xmax ∧ q.1 = ix.xmax) ∨ (ix.ymin < ix.ymax ∧ q.2 = ix.ymax)) :
+    requestPoint fl ix q = .error .index := by
+  obtain ⟨hw, _, _, _⟩ := build_spec feats res margin ix hm hb
+  obtain ⟨hcs, hls, hdX, hdY, tX, tY, _, _⟩ := build_grid hf feats res margin ix hm hres hb
+  have hnz := build_nz hf feats res margin ix hm hres hb
   obtain ⟨cq, hcq⟩ := Option.ne_none_iff_exists'.mp hq
   obtain ⟨⟨a1, a2⟩, ⟨b1, b2⟩, rfl⟩ := (getCell_some_iff ix q cq).mp hcq
-  by_cases hnf : ix.xmin < ix.xmax ∧ ix.ymin < ix.ymax
-  · rw [if_pos hnf]
-    have hdX := pX hnf.1
-    have hdY := pY hnf.2
-    have hnz : NZ ix := (NZ_iff ix).mpr ⟨ne_of_gt hdX, ne_of_gt hdY⟩
-    unfold requestPoint requestCell
-    simp only [getCellR_of_nz ix hnz q, hcq]
-    rcases hborder with he | he
-    · have : (q.1 - ix.xmin) / ix.dX = ((ix.csize : Int) : α) := by
-        rw [he, ← ex, mul_comm, mul_div_assoc, div_self (ne_of_gt hdX), mul_one]
-      rw [this, hf.eq_of (le_refl _) (by linarith)]
-      apply cellGet_err_col
-      rw [hw.2.1]; omega
-    · have : (q.2 - ix.ymin) / ix.dY = ((ix.lsize : Int) : α) := by
-        rw [he, ← ey, mul_comm, mul_div_assoc, div_self (ne_of_gt hdY), mul_one]
-      rw [this, hf.eq_of (le_refl _) (by linarith)]
-      apply cellGet_err_row _ _ _ hw.2
-      omega
-  · rw [if_neg hnf]
-    have hz : ¬ NZ ix := by
-      intro hnz
-      obtain ⟨zx, zy⟩ := (NZ_iff ix).mp hnz
-      apply hnf
-      constructor
-      · exact lt_of_le_of_ne (le_trans a1 a2) (fun h => zx (zX h))
-      · exact lt_of_le_of_ne (le_trans b1 b2) (fun h => zy (zY h))
-    unfold requestPoint
-    rw [getCellR_error ix q _ hcq hz]
+  unfold requestPoint requestCell
+  simp only [getCellR_of_nz ix hnz q, hcq]
+  rcases hborder with ⟨hlt, he⟩ | ⟨hlt, he⟩
+  · have ex := tX hlt
+    have : (q.1 - ix.xmin) / ix.dX = ((ix.csize : Int) : α) := by
+      rw [he, ← ex, mul_comm, mul_div_assoc, div_self (ne_of_gt hdX), mul_one]
+    rw [this, hf.eq_of (le_refl _) (by linarith)]
+    apply cellGet_err_col
+    rw [hw.2.1]; omega
+  · have ey := tY hlt
+    have : (q.2 - ix.ymin) / ix.dY = ((ix.lsize : Int) : α) := by
+      rw [he, ← ey, mul_comm, mul_div_assoc, div_self (ne_of_gt hdY), mul_one]
+    rw [this, hf.eq_of (le_refl _) (by linarith)]
+    apply cellGet_err_row _ _ _ hw.2
+    omega
 
-/-- `default_resolution_builds` (the repair 9a44198): with the default resolution, `margin ≥ 0` and a bounding box
-that is not a single point, `__init__` reaches the registration loop without raising, with at least one column
-and one row, and with a positive cell side on every axis along which the bounding box has a positive length — for
-every aspect ratio (an extent more than 100 times wider than tall, or the converse, used to raise
-ZeroDivisionError). -/
-theorem default_resolution_builds (fl : α → Int) (bb : α × α × α × α) (margin : α) (hm : 0 ≤ margin)
-    (hbx : bb.1 ≤ bb.2.1) (hby : bb.2.2.1 ≤ bb.2.2.2) (hne : bb.1 < bb.2.1 ∨ bb.2.2.1 < bb.2.2.2) :
-    ∃ ix, mkIndex fl bb none margin = .ok ix ∧ 1 ≤ ix.csize ∧ 1 ≤ ix.lsize ∧
-      (bb.1 < bb.2.1 → 0 < ix.dX) ∧ (bb.2.2.1 < bb.2.2.2 → 0 < ix.dY) :=
-  mkIndex_default fl bb margin hm hbx hby hne
+/-- `grid_always_builds` (the repairs 9a44198 and the degenerate-extent one): with the default resolution or a
+positive explicit cell size, `__init__` reaches the registration loop without raising for EVERY bounding box — an
+extent more than 100 times wider than tall, a flat one (all vertices on one horizontal or vertical line), a single
+point, one shorter than the cell size on an axis: the grid has at least one column and one row, both cell sides
+are positive (so `__getCell` and `groundDistanceToUnits` never divide by zero), the cells tile every axis of
+positive length exactly, and an axis of zero length has one column / row. (Each of these cases used to raise
+ZeroDivisionError.) -/
+theorem grid_always_builds {fl : α → Int} (hf : IsFloor fl) (bb : α × α × α × α) (res : Option (α × α)) (margin : α)
+    (hres : ∀ r, res = some r → 0 < r.1 ∧ 0 < r.2) :
+    ∃ ix, mkIndex fl bb res margin = .ok ix ∧ 1 ≤ ix.csize ∧ 1 ≤ ix.lsize ∧ 0 < ix.dX ∧ 0 < ix.dY ∧
+      (ix.xmin < ix.xmax → ix.dX * ((ix.csize : Int) : α) = ix.xmax - ix.xmin) ∧
+      (ix.ymin < ix.ymax → ix.dY * ((ix.lsize : Int) : α) = ix.ymax - ix.ymin) ∧
+      (ix.xmin = ix.xmax → ix.csize = 1) ∧ (ix.ymin = ix.ymax → ix.lsize = 1) :=
+  mkIndex_builds hf bb res margin hres
 
-/-- Formal side of finding `default-resolution-flat-extent`: if the constructor (`margin ≥ 0`) returns over a collection in which
-some feature has a segment (two vertices or more), then the extent is not flat: `xmin < xmax` and `ymin < ymax`,
-and no cell side is `0`. So for a collection with a segment whose vertices all share one abscissa or one ordinate
-(a straight east-west or north-south track) the constructor raises: ZeroDivisionError in `__getCell` with the
-default resolution (one row of height `0`), in `__init__` with an explicit one (`int(0 / ry) = 0` rows). -/
-theorem flat_extent_raises {fl : α → Int} (feats : List (List (α × α))) (res : Option (α × α)) (margin : α)
-    (ix : Index α) (hm : 0 ≤ margin) (hb : build fl feats res margin = .ok ix)
-    (t : List (α × α)) (ht : t ∈ feats) (A B : α × α) (hAB : (A, B) ∈ Consec t) :
-    ix.xmin < ix.xmax ∧ ix.ymin < ix.ymax ∧ ix.dX ≠ 0 ∧ ix.dY ≠ 0 := by
-  obtain ⟨hnz, nfx, nfy⟩ := build_nonflat feats res margin ix hm hb t ht (List.ne_nil_of_mem hAB)
-  exact ⟨nfx, nfy, (NZ_iff ix).mp hnz⟩
+/-- `flat_axis_single_column`: on a built index whose extent has zero length along x (all vertices share one
+abscissa: a straight north-south track) there is one column and every point of the extent — every vertex, every
+admissible query point — has column index `floor(0 / dX) = 0`; likewise along y. Together with T3/T4 (which speak
+about every built index) such a collection is indexed and queried like any other. -/
+theorem flat_axis_single_column {fl : α → Int} (hf : IsFloor fl) (feats : List (List (α × α))) (res : Option (α × α))
+    (margin : α) (ix : Index α) (hm : 0 ≤ margin) (hres : ∀ r, res = some r → 0 < r.1 ∧ 0 < r.2)
+    (hb : build fl feats res margin = .ok ix) (p c : α × α) (hp : getCell ix p = some c) :
+    (ix.xmin = ix.xmax → ix.csize = 1 ∧ fl c.1 = 0) ∧ (ix.ymin = ix.ymax → ix.lsize = 1 ∧ fl c.2 = 0) := by
+  obtain ⟨_, _, _, _, _, _, oX, oY⟩ := build_grid hf feats res margin ix hm hres hb
+  obtain ⟨⟨a1, a2⟩, ⟨b1, b2⟩, rfl⟩ := (getCell_some_iff ix p c).mp hp
+  constructor
+  · intro h
+    refine ⟨oX h, ?_⟩
+    have : p.1 - ix.xmin = 0 := by
+      have : p.1 = ix.xmin := le_antisymm (by rw [h]; exact a2) a1
+      rw [this]; ring
+    simp only [this, zero_div]
+    exact hf.zero
+  · intro h
+    refine ⟨oY h, ?_⟩
+    have : p.2 - ix.ymin = 0 := by
+      have : p.2 = ix.ymin := le_antisymm (by rw [h]; exact b2) b1
+      rw [this]; ring
+    simp only [this, zero_div]
+    exact hf.zero
 
 /-! ### non-vacuity -/
 
@@ -354,17 +356,33 @@ example : (match build Rat.floor [[((0 : ℚ), (0 : ℚ)), (1000, 5)]] none (1/2
     = (100, 1, .ok [0]) := by
   decide +kernel
 
-/-- a straight east-west track has a flat extent: with the default resolution the constructor raises
-ZeroDivisionError (finding `default-resolution-flat-extent`; `flat_extent_raises`) -/
+/-- regression witness of the degenerate-extent repair: the straight east-west track (0,0)-(10,0) with the default
+resolution and margin 1/20 is indexed on a 100 x 1 grid (it used to raise ZeroDivisionError in `__getCell`), the
+point (5, 0) finds it, and a ground distance of 1 is 10 units (cell side 11/100 on both axes) -/
 example : (match build Rat.floor [[((0 : ℚ), (0 : ℚ)), (10, 0)]] none (1/20) with
-    | .error .zerodiv => true | _ => false) = true := by
+    | .ok ix => (ix.csize, ix.lsize, requestPoint Rat.floor ix (5, 0), groundDistanceToUnits Rat.floor ix 1)
+    | .error _ => (0, 0, .error .exit, .error .exit)) = (100, 1, .ok [0], .ok 10) := by
   decide +kernel
 
-/-- two one-point features at the same ordinate: the default-resolution index is built (100 x 1 cells of height 0)
-and every point request raises ZeroDivisionError -/
-example : (match build Rat.floor [[((0 : ℚ), (0 : ℚ))], [(10, 0)]] none (1/20) with
-    | .ok ix => (match requestPoint Rat.floor ix (5, 0) with | .error .zerodiv => true | _ => false)
-    | .error _ => false) = true := by
+/-- the same track with an explicit cell size (2, 2): 5 x 1 cells (`int(0 / 2) = 0` rows used to raise
+ZeroDivisionError in `__init__`) -/
+example : (match build Rat.floor [[((0 : ℚ), (0 : ℚ)), (10, 0)]] (some (2, 2)) (1/20) with
+    | .ok ix => (ix.csize, ix.lsize, requestPoint Rat.floor ix (5, 0)) | .error _ => (0, 0, .error .exit))
+    = (5, 1, .ok [0]) := by
+  decide +kernel
+
+/-- an explicit cell size larger than the extent on one axis: the track (0,0)-(10,1) with cells (2, 5) is indexed on
+5 x 1 cells of height 11/10 (`int(1.1 / 5) = 0` rows used to raise ZeroDivisionError) -/
+example : (match build Rat.floor [[((0 : ℚ), (0 : ℚ)), (10, 1)]] (some (2, 5)) (1/20) with
+    | .ok ix => (ix.csize, ix.lsize, ix.dY, requestPoint Rat.floor ix (5, 1/2)) | .error _ => (0, 0, 0, .error .exit))
+    = (5, 1, 11/10, .ok [0]) := by
+  decide +kernel
+
+/-- a bounding box that is a single point (a track that never moves): one cell of unit side (`r = 0 / 100` used to
+raise ZeroDivisionError), and the point finds the track -/
+example : (match build Rat.floor [[((3 : ℚ), (4 : ℚ)), (3, 4)]] none (1/20) with
+    | .ok ix => (ix.csize, ix.lsize, ix.dX, ix.dY, requestPoint Rat.floor ix (3, 4)) | .error _ => (0, 0, 0, 0, .error .exit))
+    = (1, 1, 1, 1, .ok [0]) := by
   decide +kernel
 
 end TV.C08
